@@ -8,8 +8,8 @@ from .. import semgen, corpus
 
 ID = "C08"
 LEAN_MODULES = ["PycModel.Properties.C08"]
-NAMESPACES = ["PycModel.C08", "PycModel.Tables"]
-REQUIRED_THEOREMS = ["PycModel.C08.designator_encoding_not_injective", "PycModel.Tables.impl_gen_prec_is_parser_prec"]
+NAMESPACES = ["PycModel.C08", "PycModel.TablesG"]
+REQUIRED_THEOREMS = ["PycModel.C08.designator_encoding_not_injective", "PycModel.TablesG.impl_gen_prec_is_parser_prec"]
 LEVEL = "other"
 EXPLANATION = ("A C compiler's code generation has no executable model that could be tied to Lean; what is machine-checked for this property is "
                "(a) the obligation that the generator's precedence table is the parser's and C99's (so grouping is re-emitted faithfully), "
